@@ -586,10 +586,18 @@ def _check_edges(begin: sc.Variable, end: sc.Variable) -> None:
 
 
 def _check_edge_overlap(begin: sc.Variable, end: sc.Variable) -> None:
-    edges = sc.concat([begin.flatten(to='slit'), end.flatten(to='slit')], dim='edge')
+    begin, end = begin.flatten(to='slit'), end.flatten(to='slit')
+    if len(begin) == 0:
+        return
+    # Place all slits in the same turn so that overlaps across top-dead-center
+    # (end > 360 deg or begin < 0 deg) are detected.
+    full_turn = sc.scalar(360.0, unit='deg').to(unit=begin.unit)
+    width = end - begin
+    begin = begin % full_turn
+    edges = sc.concat([begin, begin + width], dim='edge')
     edges = sc.sort(edges, key=edges['edge', 0])
     begin, end = edges['edge', 0], edges['edge', 1]
-    if sc.any(begin[1:] <= end[:-1]):
+    if sc.any(begin[1:] <= end[:-1]) or end[-1] - full_turn > begin[0]:
         raise ValueError('The chopper has overlapping slits.')
 
 
